@@ -5,6 +5,7 @@ import (
 	"go/token"
 	"go/types"
 	"reflect"
+	"strings"
 )
 
 func init() { register("C04", rulesC04, nil) }
@@ -200,6 +201,38 @@ func rulesC04(c *Ctx) {
 			}
 		}
 		c.Pin("notifying goroutine", nGo, 1)
+		// a literal that sends the notice and is bound to a name is started with `go` wherever it is used (called directly
+		// on the return path it makes the caller wait for a peer that does not drain)
+		for _, lit := range call.AllLits() {
+			if len(lit.CallsIn(lit.Body, notifyObj, false)) == 0 {
+				continue
+			}
+			as, isAs := lit.Parent.ParentOf(lit.Lit).(*ast.AssignStmt)
+			if !isAs || len(as.Lhs) != 1 {
+				continue
+			}
+			v := lit.Parent.ObjOf(as.Lhs[0])
+			if v == nil {
+				continue
+			}
+			for _, uc := range call.AllCalls(call.Body, true) {
+				if call.ObjOf(uc.Fun) != v {
+					continue
+				}
+				_, viaGo := call.ParentOf(uc).(*ast.GoStmt)
+				root := call
+				if !viaGo {
+					// the call may sit in a nested literal
+					for _, l2 := range call.AllLits() {
+						if encloses(l2.Body, uc) {
+							_, viaGo = l2.ParentOf(uc).(*ast.GoStmt)
+							root = l2
+						}
+					}
+				}
+				c.Check(viaGo || isDebug(root.Root().Graph().GuardsAt(root.Root().Graph().VertexOf(uc))), "call:named-notifier-only-via-go", call, uc, "a function value that sends notifications/cancelled is invoked with `go` only")
+			}
+		}
 
 		cc := c.Fn(pM, "", "cancelCall")
 		cg := cc.Graph()
@@ -537,6 +570,7 @@ func rulesC04(c *Ctx) {
 		c.Pin("subscriptions/listen openers", m, 2)
 	})
 
+	c.Import("R-C04-13", "the request a cancellation names is found whatever its id: the requestId of notifications/cancelled is decoded from its raw text (an id beyond 2^53 that went through float64 names a neighbour — the wrong handler is cancelled, the right one keeps running)", "C19", "R-C19-1", func(k string) bool { return strings.HasPrefix(k, "Preempt:") })
 	c.Import("R-C04-12", "a cancellation names exactly one in-flight request: a refused duplicate of an in-flight id does not take over (and later retire) the original's table entry, so the original stays cancellable", "C02", "R-C02-3", nil)
 	c.Import("R-C04-7", "cancelling one call disturbs no other: the cancellation notice is a valid message of the protocol version in use, so the peer does not answer it with an error that the transport treats as the end of the session", "C12", "R-C12-7", nil)
 
